@@ -326,6 +326,18 @@ pub fn c06_scenarios(tier: Tier) -> Vec<Scenario> {
     let mut sc = ConcScenario::new(PoolCfg::simple(2), vec![vec![get(), Op::DropPool, Op::Release], vec![get(), Op::Close, Op::DropPool, Op::Release]], base);
     sc.drop_controller_handle = true;
     v.push(conc("objects-outlive-pool/ms2", "every pool handle is dropped while objects are still checked out; they are then dropped", p, 0, sc));
+    // pools whose limit is already 0 when close() runs
+    let mut sc = ConcScenario::new(PoolCfg::simple(1), vec![vec![Op::Resize(0)], vec![Op::Close, Op::Resize(2), get_nb()], vec![get(), Op::Release]], base);
+    sc.prefill = 1;
+    v.push(conc_paid("close-vs-resize-to-zero/ms1", "resize(0) racing with close(), then resize and get on the closed pool, with a getter around", if b.thorough { 3 } else { 2 }, 0, sc));
+    let mut c0 = PoolCfg::simple(0);
+    c0.create_menu = vec![Out::Ok, Out::Err];
+    let mut sc = SeqScenario::new(c0, if b.thorough { 7 } else { 5 }, base);
+    sc.close = true;
+    sc.max_tasks = 2;
+    sc.resize_targets = vec![0, 1];
+    sc.retain = false;
+    v.push(seq("close-histories/ms0", "a pool built with max_size 0: close() at every position, waiters, resize", 1, sc));
     // histories with close anywhere
     for ms in [1usize, 2] {
         let mut c = PoolCfg::simple(ms);
@@ -334,7 +346,7 @@ pub fn c06_scenarios(tier: Tier) -> Vec<Scenario> {
         let mut sc = SeqScenario::new(c, if b.thorough { 8 } else { 6 }, base);
         sc.close = true;
         sc.max_tasks = 2;
-        sc.resize_targets = vec![2];
+        sc.resize_targets = vec![0, 2];
         sc.retain = false;
         sc.prefill = ms.min(1);
         v.push(seq(&format!("close-histories/ms{}", ms), "close() at every position of every history of gets, polls, returns, takes, cancels and resize", if b.thorough { 2 } else { 1 }, sc));
